@@ -17,7 +17,8 @@ def passed(out):
 
 
 def verify(sid, var, prop):
-    wt = '/tmp/wt-%s' % sid; src = '/tmp/seed-%s/%s' % (sid, var)
+    rnd_ = os.environ.get('SEED_ROUND', '')          # '' = first round (/tmp/wt-<id>, /tmp/seed-<id>), '2' = second round (/tmp/wt2-<id>, /tmp/seed2-<id>)
+    wt = '/tmp/wt%s-%s' % (rnd_, sid); src = '/tmp/seed%s-%s/%s' % (rnd_, sid, var)
     name = '%s-%s' % (sid, var)
     log = {}
     sh(['git', 'checkout', '--', '.'], cwd=wt)
